@@ -84,8 +84,11 @@ fn serve(len: usize, source: &'static str, can_fail: bool) -> Result<Vec<u8>, ()
         } else {
             match st.mode.clone() {
                 Mode::Counter(seed) => counter_bytes(seed, index, len),
-                Mode::Const(b) => vec![b; len],
-                Mode::Counting => (0..len).map(|i| i as u8).collect(),
+                // constant answers are given for the first draws only: a source that repeats one value
+                // forever would make every rejection-sampling loop (P-384 key generation) spin
+                Mode::Const(b) if index < 4 => vec![b; len],
+                Mode::Counting if index < 4 => (0..len).map(|i| i as u8).collect(),
+                Mode::Const(_) | Mode::Counting => counter_bytes(0xfa11bac, index, len),
                 Mode::Bytes(v) => {
                     let pos = st.pos;
                     if pos + len <= v.len() {
@@ -97,6 +100,9 @@ fn serve(len: usize, source: &'static str, can_fail: bool) -> Result<Vec<u8>, ()
                 }
             }
         };
+        if index > 100_000 {
+            panic!("rng runaway: more than 100000 draws in one environment");
+        }
         if st.logging {
             st.log.push(Draw { index, len, bytes: bytes.clone(), failed: fail, source });
         }
